@@ -169,11 +169,12 @@ def run_shape(shape):
                 return {"__init__": e}
             # radii stay the concrete parsed numbers here (C02/C05 cover symbolic radii): with symbolic radii the truthiness of
             # arc*(R_k^2-R_{k-1}^2)/2 needs the NRA solver per entry, and `unknown` answers multiply paths at these sizes
-            for g in GETTERS:
-                try:
-                    out[g] = getattr(fg, g)()
-                except Exception as e:  # noqa: BLE001 - recorded per getter
-                    out[g] = e
+            for rnd in ("", "#again"):       # second pass on the SAME object: a getter must not spoil what another one needs later
+                for g in GETTERS:
+                    try:
+                        out[g + rnd] = getattr(fg, g)()
+                    except Exception as e:  # noqa: BLE001 - recorded per getter
+                        out[g + rnd] = e
         return out
 
     n = n_b * n_o * n_t
@@ -187,6 +188,7 @@ def run_shape(shape):
         res = path.value
         for g, v in res.items():
             cexinfo = {"getter": g}
+            g = g.split("#")[0]
             if isinstance(v, Exception):
                 allowed = isinstance(v, ValueError) or (cart and n_o < 3 and type(v).__name__ == "QhullError")
                 acc.structural(f"no_internal_error:{g}", allowed, detail=f"{type(v).__name__}: {v}", cex=dict(cexinfo, kind="exception", exc=type(v).__name__))
@@ -208,10 +210,19 @@ def replay(cex):
     s = cex["shape"]
     g = cex.get("getter")
     n = s["n_b"] * s["n_o"] * s["n_t"]
-    call = f"FullGrid({s['alg_b']}{s['n_b']!r}, {s['alg_o']}{s['n_o']!r}, {_t_string(s['n_t'])!r}, position_grid_cartesian={s['cartesian']}).{g}()"
+    call = f"FullGrid({s['alg_b']}{s['n_b']!r}, {s['alg_o']}{s['n_o']!r}, {_t_string(s['n_t'])!r}, position_grid_cartesian={s['cartesian']}).{g}()" + \
+        (" [after all five getters were called once on the same object]" if str(g).endswith("#again") else "")
+    again = isinstance(g, str) and g.endswith("#again")
+    g = g.split("#")[0] if isinstance(g, str) else g
     try:
         with cl.redirect_stdout(io.StringIO()):
             fg = FullGrid(f"{s['alg_b']}{s['n_b']}", f"{s['alg_o']}{s['n_o']}", _t_string(s["n_t"]), position_grid_cartesian=s["cartesian"])
+            if again:                 # same history as the symbolic run: all getters once, then the one in question again
+                for g0 in GETTERS:
+                    try:
+                        getattr(fg, g0)()
+                    except Exception:  # noqa: BLE001
+                        pass
             v = getattr(fg, g)() if g in GETTERS else None
     except ValueError as e:
         return {"reproduced": False, "detail": f"{call} raised ValueError {e} (allowed)"}
